@@ -78,6 +78,21 @@ def preempt_case(draw, tier):
         ops = [{"parents": [i - 1] if i else [], "segs": [seg(1 if full else 2)]} for i in range(n)]
         arrivals.append([0 if full else draw(st.integers(0, 2)), {"prio": draw(st.sampled_from([3, 2])), "ops": ops}])
     burst = draw(st.integers(1, 8))
+    waves = draw(st.integers(0, 2)) == 0
+    if waves:
+        # history: several separated waves of queries over a longer run, so that the same pipeline can be preempted,
+        # resumed and preempted again
+        nticks = draw(st.sampled_from([150, 100, 220]))
+        params["duration"] = (nticks + 0.5) / tps
+        for a in arrivals:
+            n_extra = draw(st.integers(3, 8))
+            a[1]["ops"] = a[1]["ops"] + [{"parents": [len(a[1]["ops"]) + i - 1], "segs": [seg(2)]} for i in range(n_extra)]
+        t = burst
+        for _ in range(draw(st.integers(2, 5))):
+            for _ in range(draw(st.integers(1, 3))):
+                ops = [{"parents": [], "segs": [seg(3)]}]
+                arrivals.append([t, {"prio": 1, "ops": ops}])
+            t += draw(st.integers(3, 25))
     for _ in range(draw(st.integers(1, 6))):
         n = draw(st.sampled_from([1, 1, 2, 3]))
         ops = [{"parents": [i - 1] if i else [], "segs": [seg(3)]} for i in range(n)]
